@@ -181,6 +181,10 @@ def _agnostic(ck, fx, cg):
     ck.ob("R5.agnostic", "no compiler-private names in the VM", not bad, bad[0][2] if bad else "", "%d string literals examined; private spellings: %s" % (n, bad or "none"))
     ck.floor("R5.agnostic", "string literals examined", n, 1)
     _execute_wiring(ck, fx)
+    # Print: "the printed output equals the abstract machine's" includes how values are rendered (shared sub-objects print,
+    # only self-containing values fail): C15's renderer rules
+    from . import shared as _sh
+    _sh.presuppose(ck, fx, cg, "C15", lambda o: o["rule"] == "R15.render", "R5.op", "Print|values are rendered as documented (C15 renderer rules)", floor=3)
 
 
 def _call_object_method(ck, fx):
